@@ -4,6 +4,7 @@ import HdVerif.Generated.T16d
 import HdVerif.Generated.T16e
 import HdVerif.Generated.T16f
 import HdVerif.Generated.T16g
+import HdVerif.Generated.T16k
 import HdVerif.Generated.T15c
 /-! # C16  Measurement-report queries return exactly the matching groups
 
@@ -93,6 +94,35 @@ theorem no_state_carried_across_groups :
     Gen.queryLoopCarried.map Prod.fst = ["get_planar_roi_measurement_groups", "get_volumetric_roi_measurement_groups",
                                           "get_image_measurement_groups"] ∧
     ∀ row ∈ Gen.queryLoopCarried, row.2 = [] := by decide
+
+/-- **Every group is visited, and what is kept is all that is returned.**  The table of the ways out of an iteration of
+`for group_item in measurement_group_items:` (computed from the current source on every run, T16k): in all three methods the
+only statements that leave an iteration early are the two `continue`s of the kind test (template identification present
+and another template / absent and the content says another kind) — no `break`, no `return`, no `raise` in the loop body
+itself —, the result is appended to exactly under "no filter given or all filters matched", the loop has no `else:` clause,
+runs over `self._find_measurement_groups()` and is followed by `return sequences` only (nothing trims, reorders or
+deduplicates the answer).  This is what entitles the model to be a document-order FILTER over ALL groups
+(`query_is_document_order_filter`): an early exit after the first hit (tracking UIDs assumed unique, "first match wins")
+makes this theorem fail.  A trip-wire on a regenerated table in the sense of AGENT_GUIDE §3a; the behaviour itself is
+exercised by the `twins` stream of the correspondence (several groups passing one filter). -/
+theorem every_group_is_visited :
+    Gen.queryLoopExits =
+      [("get_planar_roi_measurement_groups", "continue", "group_item.template_id is not None and group_item.template_id != '1410'"),
+       ("get_planar_roi_measurement_groups", "continue", "not (group_item.template_id is not None) and not _contains_planar_rois(group_item)"),
+       ("get_planar_roi_measurement_groups", "append(seq)", "len(matches) == 0 or all(matches)"),
+       ("get_volumetric_roi_measurement_groups", "continue", "group_item.template_id is not None and group_item.template_id != '1411'"),
+       ("get_volumetric_roi_measurement_groups", "continue", "not (group_item.template_id is not None) and not _contains_volumetric_rois(group_item)"),
+       ("get_volumetric_roi_measurement_groups", "append(seq)", "len(matches) == 0 or all(matches)"),
+       ("get_image_measurement_groups", "continue", "group_item.template_id is not None and group_item.template_id != '1501'"),
+       ("get_image_measurement_groups", "continue", "not (group_item.template_id is not None) and contains_rois"),
+       ("get_image_measurement_groups", "append(seq)", "len(matches) == 0"),
+       ("get_image_measurement_groups", "append(seq)", "not (len(matches) == 0) and all(matches)")] ∧
+    (["get_planar_roi_measurement_groups", "get_volumetric_roi_measurement_groups", "get_image_measurement_groups"].all fun m =>
+      Gen.queryLoopFrame.contains (m, "groups", "self._find_measurement_groups()") &&
+      Gen.queryLoopFrame.contains (m, "else", "no") &&
+      Gen.queryLoopFrame.contains (m, "tail", "return sequences") &&
+      Gen.queryLoopFrame.contains (m, "other-result-calls", "")) = true := by
+  decide +kernel
 
 /-- **A query leaves nothing behind on the report object.**  The table of what the three queries and every method of the
 report they call on `self` (here: `_find_measurement_groups`) write on the report — attribute assignments and deletions,
